@@ -274,6 +274,16 @@ theorem fit_roundtrip (pix : List (ℝ × ℝ)) (lam : ℝ) (theta : Option ℝ)
       = (c "C10", c "C12", c "phi12", theta.getD 0) :=
   fit_roundtrip_lemma pix lam theta c hz hrank hθ1 hθ2 hC hdef h1 h2
 
+/-- **the remainder model is exact where it is used**: on `[-y, 2y)` the model's `rem1` is Python/torch
+`remainder(x, y) = x − ⌊x/y⌋·y`, and both arguments the fit passes (`rot + π` and `rot`, with
+`rot = −atan2(U₁₀, U₀₀)`) lie in `[-2π, 4π)` for every matrix `U`. -/
+theorem remainder_model_exact :
+    (∀ x y : ℝ, 0 < y → -y ≤ x → x < 2 * y → rem1 x y = x - (⌊x / y⌋ : ℝ) * y) ∧
+    (∀ u : M2 ℝ,
+      (-(2 * Real.pi) ≤ -Complex.arg ⟨u.a, u.c⟩ + Real.pi ∧ -Complex.arg ⟨u.a, u.c⟩ + Real.pi < 2 * (2 * Real.pi)) ∧
+      (-(2 * Real.pi) ≤ -Complex.arg ⟨u.a, u.c⟩ ∧ -Complex.arg ⟨u.a, u.c⟩ < 2 * (2 * Real.pi))) :=
+  ⟨rem1_eq_floor, fit_remainder_args_in_range⟩
+
 /-! ### non-vacuity -/
 
 /-- the hypotheses of `conversions_polar_cart_polar` are satisfiable at every table entry -/
